@@ -14,7 +14,10 @@ void harness(void) {
     PictureParentControlSet *ppcs = (PictureParentControlSet *)malloc(sizeof *ppcs);
     PacketizationReorderEntry *q = (PacketizationReorderEntry *)malloc(sizeof *q);   /* arbitrary (stale) contents */
     EbBufferHeaderType *o = (EbBufferHeaderType *)malloc(sizeof *o);
-    V_ASSUME(pcs && ppcs && q && o);
+    SequenceControlSet *scs = (SequenceControlSet *)malloc(sizeof *scs);
+    V_ASSUME(pcs && ppcs && q && o && scs);
+    scs->intra_refresh_type = (uint32_t)vin_range(1, 2); scs->static_config.intra_refresh_type = scs->intra_refresh_type;   /* CRA / IDR refresh */
+    scs->static_config.intra_period_length = (int32_t)vin_range(-1, 255); pcs->picture_number = vin64(); ppcs->picture_number = pcs->picture_number;
     q->frame_type = (FrameType)vin_range(0, 3); q->slice_type = vin8(); q->show_frame = (EbBool)vinbool(); q->has_show_existing = (EbBool)vinbool(); q->picture_number = vin64(); q->poc = vin64();   /* stale slot contents, routed through the replayable inputs */
     pcs->parent_pcs_ptr = ppcs;
     ppcs->idr_flag = (EbBool)vinbool(); ppcs->is_used_as_reference_flag = (EbBool)vinbool();
@@ -30,7 +33,7 @@ void harness(void) {
         V_ASSERT(o->pic_type == EB_AV1_NON_REF_PICTURE, "non-reference pictures are reported as such");
     if (o->pic_type != EB_AV1_KEY_PICTURE && o->pic_type != EB_AV1_NON_REF_PICTURE)
         V_ASSERT(o->pic_type == pcs->slice_type, "otherwise the slice type is reported");
-    sps_decision(pcs, frm_hdr, q);
+    sps_decision(pcs, scs, frm_hdr, q);
     V_ASSERT(sps_written == (frm_hdr->frame_type == KEY_FRAME), "sequence header written in front of the frame exactly when it is a key frame");
     V_END();
 }
